@@ -109,7 +109,9 @@ func runC15(c *Ctx) {
 					return false
 				}
 				t0, t1 := typeStr(sig.Params().At(0).Type()), typeStr(sig.Params().At(1).Type())
-				return (t0 == "string" && t1 == "*rules.CosmeticRule") || (t1 == "string" && t0 == "*rules.CosmeticRule")
+				// (hostname, rule) in either order, or (hostname, content): the content is what the
+				// exceptions are looked up by
+				return (t0 == "string" && t1 == "*rules.CosmeticRule") || (t1 == "string" && t0 == "*rules.CosmeticRule") || (t0 == "string" && t1 == "string")
 			})
 		}
 		if tblAdd == nil {
@@ -127,6 +129,19 @@ func runC15(c *Ctx) {
 	wlHost, wlRule := 1, 2
 	if typeStr(isWL.Params[1].Type()) != "string" {
 		wlHost, wlRule = 2, 1
+	} else if typeStr(isWL.Params[2].Type()) == "string" {
+		// two strings: the hostname is the one handed to CosmeticRule.Match
+		g := NewGate(c.P)
+		g.Inline = inlineOnly()
+		g.Search = true
+		g.Pure[FuncName(crm)] = true
+		g.Eval(isWL)
+		ps := g.ParamExprs(isWL)
+		for _, e := range g.U.tab {
+			if e.Op == "call" && e.Aux == calleeName(crm) && len(e.Args) >= 2 && e.Args[1] == ps[2] {
+				wlHost, wlRule = 2, 1
+			}
+		}
 	}
 
 	guarded := func(u *U, s *Summary, rc Ref, el, host *E) (okM, okW bool) {
@@ -294,7 +309,7 @@ func runC15(c *Ctx) {
 						for _, cs := range callSites(find, func(cal *ssa.Function, _ *ssa.CallCommon) bool { return cal != nil && calleeName(cal) == ce.Aux }) {
 							if cal := cs.Common().StaticCallee(); cal != nil && c.P.IsLibFunc(cal) {
 								foundProbe = true
-								checkSuffixEnumerator(c, "C15.R2", cal)
+								checkSuffixEnumerator(c, "C15.R2", cal, nil)
 							}
 						}
 					}
